@@ -365,6 +365,17 @@ def str_method(ex, o, m, args, kwargs, st, fr, n):
         return ex.val(VStr(sf.apply(o.t), o.kind), st)
     if m == 'split':
         return str_split(ex, o, args, kwargs, st)
+    if m == 'partition' and len(args) == 1:
+        # s.partition(sep): exact, with indexof (first occurrence)
+        sep = args[0]
+        idx = z3.IndexOf(o.t, sep.t, 0)
+        et = o.kind if o.kind != 'mv' else 'bytes'
+
+        def found(s2):
+            return ex.val(VTuple([VStr(z3.SubString(o.t, 0, idx), et), VStr(sep.t, et),
+                                  VStr(z3.SubString(o.t, idx + z3.Length(sep.t), z3.Length(o.t) - idx - z3.Length(sep.t)), et)]), s2)
+        return ex.branch(idx >= 0, st, found,
+                         lambda s2: ex.val(VTuple([VStr(o.t, et), VStr(z3.StringVal(''), et), VStr(z3.StringVal(''), et)]), s2))
     if m == 'join':
         return str_join(ex, o, args[0], st)
     if m == 'encode':
